@@ -68,6 +68,14 @@ EmitTamper ==
   (Emit /\ tamper # NoTamper /\ verdict \in {"ok", "err"}) =>
      PrintT("TAMPER " \o ToJson([tamper |-> tamper, verdict |-> verdict]))
 
+\* C02: single-phase shapes (values stay small), one proof
+C02Init ==
+  InitFamily({1}, {0, 1}, {<<>>, <<2>>, <<1, 1>>},
+             { <<Ph(3, 0)>>, <<Ph(4, 0)>> },
+             {0, 1, 2, 3}, {0, 4}, {3, 4, 5}, {0, 1, 2},
+             { <<>>, << <<2, 1>>, <<1, -1>> >> })
+C02Spec == C02Init /\ [][Next]_vars
+
 QuickSpec == QuickInit /\ [][Next]_vars
 ThoroughSpec == ThoroughInit /\ [][Next]_vars
 
